@@ -242,6 +242,42 @@ func VerifH_KeyLockMixed() {
 	symx.Reach("end")
 }
 
+// C02/H2c: multi-key calls of different lengths over the same keys (a pair and a triple, both ascending and
+// duplicate free; the pair read- or write-locks): one global lock order means they never deadlock, whatever
+// shards the keys fall into; exclusion monitors on the shared keys; no per-key state left.
+func VerifH_KeyLockMultiLengths() {
+	lk := verifNewLocker()
+	symx.Assume(lk.t != nil)
+	a := symx.Concrete(symx.Int("a"), 0, 3)
+	b, c := a+1, a+2
+	ma, mb := &verifKeyMon{}, &verifKeyMon{}
+	pairReads := symx.Bool("pairReads")
+	t1 := symx.Go("pair", func() {
+		if pairReads {
+			lk.t.RLocks([]int{a, b})
+			ma.read()
+			mb.read()
+			lk.t.RUnlocks([]int{a, b})
+		} else {
+			lk.t.Locks([]int{a, b})
+			ma.write()
+			mb.write()
+			lk.t.Unlocks([]int{a, b})
+		}
+	})
+	t2 := symx.Go("triple", func() {
+		lk.t.Locks([]int{a, b, c})
+		ma.write()
+		mb.write()
+		lk.t.Unlocks([]int{a, b, c})
+	})
+	symx.WaitQuiescent()
+	symx.MustFinish(t1, "consistently ordered multi-key locks never deadlock")
+	symx.MustFinish(t2, "consistently ordered multi-key locks never deadlock")
+	symx.Assert(lk.entries() == 0, "no per-key state left")
+	symx.Reach("end")
+}
+
 // C02/H3: lock order of the sharded generic locker. For a duplicate-free ascending key list the
 // per-key locks are taken shard by shard in increasing shard order and, inside a shard, in the caller's
 // order - one global order for every caller, which is what makes overlapping multi-key calls deadlock
